@@ -273,8 +273,8 @@ impl Boudot2000RangeProof {
 
             if c * b <= D_1
                 && D_1
-                    <= (Integer::from(2).pow(T) * Integer::from(2).pow(t + l)) * b
-                        - Integer::from(1)
+                    <= Integer::from(2).pow(T)
+                        * (Integer::from(2).pow(t + l) * b - Integer::from(1))
             {
                 boolean = false;
             }
